@@ -167,6 +167,11 @@ func evalC09(c *Ctx, cs *Case) {
 				}
 				before := j.Snap()
 				opts := append(fsOpts("", exts, hasExt, true, massive, false), bopts...)
+				if (ei+int(cs.Seed%5))%5 == 2 {
+					// a meaningless encode option next to the dry-run option must not change the report
+					opts = append(opts, []gtree.Option{gtree.WithEncodeJSON(), gtree.WithEncodeYAML()}[ei%2])
+					c.Count("dry_runs_with_a_stray_encode_option", 1)
+				}
 				cs.Entry = "OutputFromMarkdown[dryrun," + mode + "]"
 				cs.Tags = []string{mode}
 				cs.Opt = map[string]string{"ext": strconv.Itoa(ei)}
